@@ -506,9 +506,122 @@ func genChurn(seed uint64, tier string) *Scenario {
 	return s
 }
 
+// genHandover: the exact shape in which a wake-up token can get lost: the
+// limit is m, exactly m streams are open and all finish at the same virtual
+// instant T, and at that very instant 2..m+1 new RPCs call NewStream. A caller
+// that has failed the admission check but is not yet parked on the wake-up
+// channel misses the second of two back-to-back completions; it then depends on
+// the admitted caller passing the token on. The streams admitted at T are
+// long-lived, so a forgotten waiter stays blocked with a free slot until the
+// quiescent points at T+1 ms and T+100 ms.
+func genHandover(seed uint64, tier string) *Scenario {
+	r, s := genBase(seed, tier, false)
+	s.Oracles = []string{"mcs", "quota"}
+	s.Sched.YieldThr = core.Pick(r, uint32(20000), 30000, 45000, 60000)
+	s.Net = simnet.Cfg{Seed: core.Mix(seed, 21)}
+	s.Client.WriteBuf, s.Client.ReadBuf = 0, 0
+	m := r.Range(2, 3)
+	s.Peer.MCS = int64(m)
+	T := int64(core.Pick(r, 1000, 50000, 1000000))
+	long := int64(core.Pick(r, 500000000, 2000000000))
+	hold := SOp{Op: "sleep", Ns: T, FirstK: m, Ns2: long}
+	fin := core.Pick(r, SOp{Op: "trailers"}, SOp{Op: "trailers"}, SOp{Op: "rst", Code: 8})
+	id := uint32(0)
+	add := func(start int64, n int) {
+		for i := 0; i < n; i++ {
+			id++
+			rpc := RPC{ID: id, StartNs: start, DeadlineNs: 10000000000}
+			rpc.Client = []Op{{Op: "close_send"}, {Op: "recv_all"}}
+			rpc.Server = [][]SOp{{hold, fin}}
+			s.RPCs = append(s.RPCs, rpc)
+		}
+	}
+	add(0, m) // fill the limit
+	if r.Chance(1, 2) {
+		// variant: the waiters are parked already; at T the limit is raised by one
+		// (all of them are woken at once and re-check) while all open streams
+		// finish: the waiters that lose the race for the new slot are on their
+		// way back to the wake-up channel when two completions arrive
+		add(0, r.Range(3, m+1))
+		a := act(T, "settings")
+		a.MCS = int64(m + 1)
+		s.Actions = append(s.Actions, a)
+		for _, at := range []int64{T + 1000000, T + 100000000} {
+			s.Actions = append(s.Actions, act(at, "check"))
+		}
+		return s
+	}
+	add(T, r.Range(2, m+1)) // arrive exactly when all of them finish
+	if r.Chance(1, 3) {
+		add(T+long, r.Range(2, m+1)) // and once more when the second generation finishes
+	}
+	for _, at := range []int64{T + 1000000, T + 100000000, T + long + 100000000} {
+		s.Actions = append(s.Actions, act(at, "check"))
+	}
+	return s
+}
+
+// genCycles repeats the hand-over situation several times in one run: every
+// period P all L open streams finish at the same instant; shortly before, the
+// limit was lowered by one and three more RPCs have parked; at the instant the
+// streams finish the limit goes back to L, which wakes all parked callers at
+// once: they re-check (no slot yet), and are on their way back to the wake-up
+// channel while the completions arrive. Streams admitted then live until the
+// next period. A quiescent point a quarter period later sees a forgotten waiter.
+func genCycles(seed uint64, tier string) *Scenario {
+	r, s := genBase(seed, tier, false)
+	s.Oracles = []string{"mcs", "quota"}
+	// the window is a single scheduling point (between the failed admission
+	// check and the select): yield there almost always
+	s.Sched.YieldThr = core.Pick(r, uint32(30000), 45000, 55000, 62000)
+	s.Net = simnet.Cfg{Seed: core.Mix(seed, 21)}
+	s.Client.WriteBuf, s.Client.ReadBuf = 0, 0
+	L := r.Range(2, 4)
+	s.Peer.MCS = int64(L)
+	P := int64(core.Pick(r, 100000, 1000000, 20000000))
+	cycles := r.Range(3, 8)
+	if tier == "thorough" {
+		cycles = r.Range(4, 14)
+	}
+	burst := r.Chance(2, 3)
+	id := uint32(0)
+	add := func(start int64, n int) {
+		for i := 0; i < n; i++ {
+			id++
+			rpc := RPC{ID: id, StartNs: start, DeadlineNs: int64(cycles+3) * P}
+			rpc.Client = []Op{{Op: "close_send"}, {Op: "recv_all"}}
+			if burst {
+				rpc.Server = [][]SOp{{{Op: "hang"}}} // finished by the peer's finish_all action
+			} else {
+				rpc.Server = [][]SOp{{{Op: "sleep_to_grid", Ns: P}, {Op: core.Pick(r, "trailers", "trailers", "end_data")}}}
+			}
+			s.RPCs = append(s.RPCs, rpc)
+		}
+	}
+	add(0, L)
+	for c := int64(1); c <= int64(cycles); c++ {
+		lower := act(c*P-P/2, "settings")
+		lower.MCS = int64(L - 1)
+		raise := act(c*P, "settings")
+		if burst {
+			raise.Kind = "finish_all" // SETTINGS first, then all trailers, in one burst
+		}
+		raise.MCS = int64(L)
+		s.Actions = append(s.Actions, lower, raise, act(c*P+P/4, "check"))
+		add(c*P-P/4, r.Range(2, L)) // park: no slot while the limit is lowered
+	}
+	sortActions(s)
+	return s
+}
+
 func genC13(seed uint64, tier string) *Scenario {
-	if core.NewRand(core.Mix(seed, 81)).Chance(1, 3) {
+	switch core.NewRand(core.Mix(seed, 81)).Intn(5) {
+	case 0:
 		return genChurn(seed, tier)
+	case 1:
+		return genHandover(seed, tier)
+	case 2, 3:
+		return genCycles(seed, tier)
 	}
 	r, s := genBase(seed, tier, true)
 	s.Oracles = []string{"mcs", "quota"}
@@ -655,7 +768,22 @@ func simnetFault(kind string, conn int) simnet.Fault { return simnet.Fault{Kind:
 func init() {
 	core.Register("C01wt", genC01wt, Run)
 	core.Register("C02wt", genC02wt, Run)
-	core.Register("C03", genC03, Run)
+	core.Register("C03wt", genC03, Run)
+	core.Register("C17wt", genC17wt, Run)
 	core.Register("C13", genC13, Run)
 	core.Register("C14wt", genC14wt, Run)
+}
+
+// C17wt: the stream-quota clause of C17 ("a NewStream call waiting for stream
+// quota is woken whenever quota becomes available"): the shapes of C13 in which
+// callers wait for a slot while slots are handed back, judged by the "quota"
+// oracle (waiting_for_stream_quota_below_limit at quiescent points).
+func genC17wt(seed uint64, tier string) *Scenario {
+	switch core.NewRand(core.Mix(seed, 83)).Intn(5) {
+	case 0:
+		return genChurn(seed, tier)
+	case 1, 2:
+		return genHandover(seed, tier)
+	}
+	return genCycles(seed, tier)
 }
